@@ -96,7 +96,8 @@ class RequestHandlerBase(MethodView):
         defaults = OptionsRepository.get_default_options()
         if stream is not None:
             if stream.defaults is not None:
-                defaults = defaults.clone(**stream.defaults)
+                defaults = defaults.clone(
+                    **OptionsRepository.parse_stored_options(stream.defaults))
         if restrictions is not None:
             args = {**args}
             for key, allowed_values in restrictions.items():
